@@ -10,6 +10,7 @@ from __future__ import annotations
 import ast
 
 from ..astutil import kwarg, deref, ancestors, calls_in, dotted, enclosing_stmt, src, walk_local
+from ..cfg import cfg_of
 from ..loader import AnalysisError
 from ..terms import NONE, Evaluator, alts, contains, find, show, strip_sites, walk
 from .c12 import _delegates
@@ -154,15 +155,47 @@ def r2_one_limiter(ctx):
         ctx.check(len(names) == 1 and bool(wraps), 'C20.R2', f'{func_label(fn)}|wrap-receiver-is-command-limiter', loc(fn, wraps[0]) if wraps else loc(fn, fn.node), f'{cmd}: every wrap() is called on the one command-level limiter `{next(iter(names)) if names else "?"}`', f'{cmd}: wrap() receivers: {sorted(str(n) for n in names)}')
 
 
+def _ledger_of(corpus, rl, f):
+    """The function that keeps the debt for pause_reads / pause_writes: the method itself, or - when the method only
+    forwards to an object built in __init__ (`self._read_debt.add(seconds, self)`) - that object's method."""
+    body = [st for st in f.node.body if not (isinstance(st, ast.Expr) and isinstance(st.value, ast.Constant))]
+    if len(body) != 1 or not isinstance(body[0], (ast.Expr, ast.Return)) or not isinstance(body[0].value, ast.Call):
+        return f
+    c = body[0].value
+    if not (isinstance(c.func, ast.Attribute) and isinstance(c.func.value, ast.Attribute) and isinstance(c.func.value.value, ast.Name) and c.func.value.value.id == 'self'):
+        return f
+    holder = c.func.value.attr
+    init = rl.methods.get('__init__')
+    if init is None:
+        return f
+    for st in walk_local(init.node):
+        if isinstance(st, ast.Assign) and isinstance(st.value, ast.Call) and any(isinstance(t, ast.Attribute) and t.attr == holder for t in st.targets):
+            cn = dotted(st.value.func)
+            hc = rl.module.classes.get(cn) if cn else None
+            if hc is not None and c.func.attr in hc.methods:
+                return hc.methods[c.func.attr]
+    return f
+
+
 def r4_debt_lock(ctx):
     corpus = ctx.corpus
     rl = corpus.cls('utils', 'RateLimitedIO')
     fields_seen = []
+    ledgers_done = set()
+    delegated = []
     for mname in ('pause_reads', 'pause_writes'):
         f = rl.methods.get(mname)
         if f is None:
             raise AnalysisError(f'C20.R4: RateLimitedIO.{mname} missing')
         ctx.analysed(f)
+        f = _ledger_of(corpus, rl, f)
+        if f.cls is not rl:
+            delegated.append(f)
+            if f.key in ledgers_done:
+                continue
+            ledgers_done.add(f.key)
+            ctx.analysed(f)
+            mname = f'{f.cls.name}.{f.name} (the ledger behind {mname})'
         # roles by structure: the lock is what the method's `with self.<lock>:` takes, the debt field is the attribute stored inside it
         withs = [w for w in walk_local(f.node) if isinstance(w, ast.With) and any((dotted(it.context_expr) or '').startswith('self.') for it in w.items)]
         if not withs:
@@ -223,10 +256,57 @@ def r4_debt_lock(ctx):
             f'{mname}: the pause owed by the caller (`{pname}`) is charged as given',
             f'{mname}: the pause owed by the caller is rewritten before it is charged (`{src(enclosing_stmt(reassigned[0]), 70) if reassigned else ""}`): e.g. time spent waiting for the lock - during which other streams kept transferring - is credited, so N queued streams pass more than the limit',
         )
+        if len(acc) == 1:
+            cfg_ = cfg_of(f.node)
+            an = cfg_.nodes_of(acc[0], ('stmt', 'ok'))
+            skip = cfg_.path(cfg_.entry, [cfg_.exit], avoid=an, kinds=('normal',)) if an else None
+            ctx.check(
+                skip is None,
+                'C20.R4',
+                f'{func_label(f)}|every-call-is-charged',
+                loc(f, acc[0]),
+                f'{mname}: every call adds the pause it owes to the debt',
+                f'{mname}: a call can return without its pause having been added to the debt (e.g. pauses below a threshold are dropped): transfers whose individual pauses are small - many streams, '
+                'small reads - are not limited at all',
+            )
+        # the debt is credited only with time measured around the sleep of this very call
+        for a in walk_local(f.node):
+            sub = None
+            if isinstance(a, ast.AugAssign) and isinstance(a.op, ast.Sub) and is_field(a.target):
+                sub = a.value
+            elif isinstance(a, ast.Assign) and any(is_field(t) for t in a.targets):
+                for b_ in ast.walk(a.value):
+                    if isinstance(b_, ast.BinOp) and isinstance(b_.op, ast.Sub) and is_field(b_.left):
+                        sub = b_.right
+            if sub is None:
+                continue
+            full = deref(f.node, sub) if isinstance(sub, ast.Name) else sub
+            foreign = [x for x in ast.walk(full) if isinstance(x, ast.Attribute) and isinstance(x.value, ast.Name) and x.value.id == 'self' and not is_field(x)]
+            locals_ = [x for x in ast.walk(full) if isinstance(x, ast.Name) and x.id != pname and isinstance(x.ctx, ast.Load) and x.id not in ('time', 'max', 'min')]
+            after_sleep = True
+            cfg_ = cfg_of(f.node)
+            sn_ = [n_ for c in sleeps for n_ in cfg_.nodes_of(enclosing_stmt(c), ('stmt', 'ok'))]
+            for l_ in locals_:
+                for d_ in [x for x in walk_local(f.node) if isinstance(x, ast.Assign) and any(isinstance(t, ast.Name) and t.id == l_.id for t in x.targets)]:
+                    dn_ = cfg_.nodes_of(d_, ('stmt', 'ok'))
+                    tn_ = cfg_.nodes_of(a, ('stmt',))
+                    if dn_ and tn_ and sn_ and any(cfg_.path(x, tn_, avoid=sn_) is not None for x in dn_) and any(isinstance(y, ast.Call) and (dotted(y.func) or '').endswith(('perf_counter', 'monotonic', 'time')) for y in ast.walk(d_.value)):
+                        after_sleep = False
+            ctx.check(
+                not foreign and after_sleep,
+                'C20.R4',
+                f'{func_label(f)}|credit-is-the-measured-sleep',
+                loc(f, a),
+                f'{mname}: the debt is reduced only by time measured around the sleep of the same call',
+                f'{mname}: `{src(a, 70)}` writes debt off against time that was not spent sleeping in this call (`{src(full, 50)}`): the time a transfer itself took is already deducted by the wrapper, '
+                'so it is credited twice and the streams pass up to twice the limit',
+            )
         ctx.check(len(acc) == 1, 'C20.R4', f'{func_label(f)}|debt-accumulates', loc(f, f.node), f'{mname}: debt += seconds exactly once per call', f'{mname}: the pause owed by a call is not added to the debt exactly once')
     # fields initialised in __init__ only
     init = rl.methods['__init__']
     others = [m for n, m in rl.methods.items() if n not in ('__init__', 'pause_reads', 'pause_writes')]
+    for d_ in delegated:
+        others += [m for m in d_.cls.methods.values() if m is not d_ and m.name != '__init__']
     for m in others:
         bad = [a for a in ast.walk(m.node) if isinstance(a, ast.Attribute) and (dotted(a) or '')[5:] in set(fields_seen)]
         ctx.check(not bad, 'C20.R4', f'{func_label(m)}|debt-not-touched-elsewhere', loc(m, m.node), f'{m.name} does not touch the debt fields', f'{m.name} touches the debt fields outside their lock')
